@@ -169,6 +169,16 @@ def field_options(vk, cfg):
         vk.ensures_eq(f"{tag}/field1==interpolated values", res[1], pspec)
         for k in range(2):
             _layout(vk, f"{tag}/field{k}", res[k], per[k])
+    # ---- FieldContainer.extract(grad=): one flag per field (documented: "a list of booleans"); fields beyond the list: values
+    pgrad = ref_einsum("ai,ajqc->ijqc", p, r.dhdX)
+    for flags, want in (([True, True], (gspec, pgrad)), ((False, True), (ispec, pgrad)), ([True, False], (gspec, pspec)), ([False], (ispec, pspec)), ([True], (gspec, pspec))):
+        res = fc.extract(grad=flags, add_identity=False)
+        tag = f"container.extract(grad={flags!r}, add_identity=False)"
+        if vk.sym:
+            vk.ensures_true(f"{tag}/one array per field, gradient shape where the flag is set", isinstance(res, tuple) and len(res) == 2 and all(np.shape(a) == np.shape(b) for a, b in zip(res, want)), f"{[np.shape(a) for a in res]}", backend="exec")
+        for k in range(2):
+            if np.shape(res[k]) == np.shape(want[k]):
+                vk.ensures_eq(f"{tag}/field{k}", res[k], want[k])
     # ---- out=
     u_b = vk.reals("ub", (n, fdim), near=0.1, spread=0.2)
     f_b = cls(r, dim=fdim, values=u_b)
